@@ -66,6 +66,36 @@ def comprehension_probe(ctx, key):
                     "a comprehension inside a simplified query: the result does not compute what the original computes", key=key)
 
 
+ARGN_PROBE = "Select(ds, lambda x: Select(x.jets, lambda arg_0: arg_0.pt + x.met))"
+
+
+def argn_probe(ctx, key):
+    """the known finding: a query that already holds a name of the form arg_N (for instance the simplifier's own output,
+    simplified again in a fresh process) - the fresh names come from a counter that does not look at the names in use"""
+    import ast
+    import copy
+
+    import pyworld
+    from common import rich_dataset
+
+    a = simplify.parse_query(ARGN_PROBE)
+    try:
+        out = simplify.run_simplifier(copy.deepcopy(a))
+    except Exception as e:
+        ctx.violate({"src": ARGN_PROBE, "error": f"{type(e).__name__}: {e}"[:200]}, "the simplifier raised", key=key)
+        return
+    w = pyworld.to_world(rich_dataset(ctx.rng))
+    want = pyworld.from_world(pyworld.py_eval(a, w))
+    try:
+        have = pyworld.from_world(pyworld.py_eval(out, w))
+    except Exception as e:
+        have = f"raises {type(e).__name__}: {e}"[:160]
+    ctx.count("argn-probe", True, tags=["arg_N probe"])
+    if have != want:
+        ctx.violate({"src": ARGN_PROBE, "out": ast.unparse(out), "python_original": repr(want)[:150], "python_simplified": repr(have)[:150]},
+                    "a query that already uses a name of the form arg_N: the generated parameter name captures it", key=key)
+
+
 def reuse_family(rng, n):
     """a stage lambda that re-uses the still-live parameter name of the ENCLOSING (un-called) lambda, followed by a stage whose
     lambda mentions the enclosing parameter: fusing the two stages must not let the inner binder capture it"""
@@ -94,6 +124,7 @@ def reuse_family(rng, n):
 
 def run(ctx):
     comprehension_probe(ctx, "C02-comprehension-target-captured")
+    argn_probe(ctx, "C02-generated-name-already-in-use")
     simplify.check_queries(ctx, reuse_family(ctx.rng, ctx.n(60, 1500)), "c02-reuse")
     n = ctx.n(1200, 60000)
     done = 0
